@@ -310,7 +310,7 @@ fn run_hyg(cx: &Cx, rep: &mut Report, rules: &[&str]) -> Vec<Collected> {
 
 pub fn c13(cx: &Cx) -> i32 {
     let mut rep = cx.report("C13");
-    crate::misc::span_hygiene_rule(cx, &mut rep);
+    crate::misc::span_hygiene_rule(cx, &mut rep, &[]);
     let coll = run_hyg(cx, &mut rep, &["TP-binders", "TP-binder-user-ident", "TP-abs-paths", "TP-method-syntax"]);
     // positive fixtures: the rules must fire on a violating instance (zero-count rules never pass vacuously)
     let fx: syn::File = syn::parse_str("impl<T> Eq for X<T> { fn f<H>(&self, other: &Self) { let o = Some(1); let _: for<'a> fn(&'a u8); } }").unwrap_or(syn::File { shebang: None, attrs: vec![], items: vec![] });
@@ -327,7 +327,7 @@ pub fn c20(cx: &Cx) -> i32 {
     crate::props_tp::ctor_kind_rule(cx, &mut rep, &["Clone", "Default", "BinaryOp", "UnaryOp"]);
     // an attribute the expansion consumed but left on the item is expanded again: duplicate impls (E0119) in generated code (the C14 rule)
     rep.import(&crate::props_entry::c14_report(cx), &["ES-strip-coverage", "DM-strip-set"]);
-    crate::misc::span_hygiene_rule(cx, &mut rep);
+    crate::misc::span_hygiene_rule(cx, &mut rep, &[]);
     // a used field type that mentions a parameter must be bounded by the trait, else the generated impl does not type-check
     // although derive_ex reported nothing (the C03 rules, as a necessary condition)
     crate::props_bounds::run_bounds(cx, &mut rep, &["ES-use-bound"]);
@@ -409,7 +409,7 @@ pub fn c12(cx: &Cx) -> i32 {
     crate::props_tp::ctor_kind_rule(cx, &mut rep, &["Clone", "Default", "BinaryOp", "UnaryOp"]);
     // stacked `#[derive(..)]` attributes become stacked `#[derive_ex(..)]` attributes: every list must be read (the C15 rule)
     rep.import(&crate::props_entry::c15_report(cx), &["DM-arg-merge"]);
-    crate::misc::span_hygiene_rule(cx, &mut rep);
+    crate::misc::span_hygiene_rule(cx, &mut rep, &[]);
     // DM-zero-state: without helper attributes every comparison model yields the default comparator, no ignore / reverse / error
     let traits: Vec<usize> = (0..5).collect();
     let ct = crate::props::cmp_models(cx, &mut rep, &traits, "", false);
